@@ -44,6 +44,11 @@ def pinned_names():
         return set(json.load(f)['names'])
 
 
+def pinned_signatures():
+    with open(os.path.join(HERE, 'pinned_helpers.json')) as f:
+        return json.load(f).get('signatures', {})
+
+
 def _docless(body):
     if body and isinstance(body[0], ast.Expr) and isinstance(body[0].value, ast.Constant) and isinstance(body[0].value.value, str):
         return body[1:]
@@ -375,11 +380,27 @@ class Normaliser(object):
                     seen.add(b)
                     ancestors(b, seen)
             return seen
+        # pinned functions that disappeared from a class / module: a new function there with the same parameters is its rename
+        present = set()
+        for name, ds in by_name.items():
+            for mn, cls, fn in ds:
+                present.add('%s::%s::%s' % (mn, cls.name if cls is not None else '', name))
+        missing = {}
+        for q, params in pinned_signatures().items():
+            if q not in present:
+                mn, cn, nm = q.split('::')
+                missing.setdefault((mn, cn), []).append((nm, params))
+        self.renamed = []
         self.helpers = {}
         for name, ds in by_name.items():
             if not name.startswith('_') or name.startswith('__') or name in self.pinned:
                 continue
             for mn, cls, fn in ds:
+                sig = [a.arg for a in fn.args.args]
+                old = [nm for nm, params in missing.get((mn, cls.name if cls is not None else ''), []) if params == sig]
+                if old:
+                    self.renamed.append((name, old[0]))
+                    continue
                 others = [d for d in ds if d[2] is not fn]
                 if cls is None:
                     if any(o[0] == mn and o[1] is None for o in others):
